@@ -242,9 +242,47 @@ pub fn some_cmds(rng: &mut Rng, region: &str, max_len: usize) -> Vec<u8> {
 }
 
 /// Class of a rejected frame for the histogram
+/// change the last four octets so that the differences cancel under XOR (d,0,d,0 / a,b,c,a^b^c) or
+/// under wrapping addition (+d, -d)
+pub fn tamper_mic(rng: &mut Rng, b: &mut [u8]) {
+    let n = b.len();
+    if n < 4 {
+        return;
+    }
+    let d = 1 + rng.below(255) as u8;
+    match rng.below(3) {
+        0 => {
+            b[n - 4] ^= d;
+            b[n - 2] ^= d;
+        }
+        1 => {
+            let (x, y, z) = (1 + rng.below(255) as u8, rng.next() as u8, rng.next() as u8);
+            b[n - 4] ^= x;
+            b[n - 3] ^= y;
+            b[n - 2] ^= z;
+            b[n - 1] ^= x ^ y ^ z;
+            if x ^ y ^ z == 0 && y == 0 && z == 0 {
+                b[n - 4] ^= x; // never leave the MIC intact
+                b[n - 4] ^= d;
+                b[n - 2] ^= d;
+            }
+        }
+        _ => {
+            b[n - 4] = b[n - 4].wrapping_add(d);
+            b[n - 1] = b[n - 1].wrapping_sub(d);
+        }
+    }
+}
+
+/// deterministic variant for a plaintext MIC: d,0,d,0
+pub fn tamper_mic_plain(m: &mut [u8], d: u8) {
+    m[0] ^= d;
+    m[2] ^= d;
+}
+
 pub fn rejected_frame(rng: &mut Rng, h: &Hist) -> (Vec<u8>, Option<u32>, &'static str) {
     let last = h.last_down;
-    match rng.below(9) {
+    match rng.below(10) {
         0 => ({ let n = rng.below(40) as usize; rng.bytes(n) }, None, "rej-random"),
         8 => {
             // a frame that verifies at the next fresh counter but whose FOptsLen claims 1..3 octets more
@@ -337,6 +375,19 @@ pub fn rejected_frame(rng: &mut Rng, h: &Hist) -> (Vec<u8>, Option<u32>, &'stati
             d.app = h.app;
             d.confirmed = rng.chance(1, 2);
             (d.build().unwrap(), Some(fcnt), "rej-farfuture")
+        }
+        9 => {
+            // an authentic fresh frame whose MIC is off in a pattern that cancels under XOR or under
+            // addition (a comparison that folds the four octets into one would let it through)
+            let fcnt = last.map(|l| l.wrapping_add(1)).unwrap_or(3);
+            let mut d = DownDesc::new(h.devaddr, fcnt);
+            d.nwk = h.nwk;
+            d.app = h.app;
+            d.fport = Some(9);
+            d.payload = vec![4, 5];
+            let mut b = d.build().unwrap();
+            tamper_mic(rng, &mut b);
+            (b, Some(fcnt), "rej-mic-cancelling")
         }
         5 => {
             // a JoinAccept under a wrong key
@@ -459,6 +510,13 @@ pub fn join_attempt(rng: &mut Rng, h: &mut Hist, accept_pct: u64) -> bool {
         }
         let root = h.root;
         let acc = build_join_accept(&root, devaddr, dls, rxd, &cf);
+        if rng.chance(1, 3) {
+            // the genuine accept with its MIC off in a cancelling pattern: the MIC is inside the
+            // encrypted part, so tamper the plaintext and re-encrypt (reference codec)
+            if let Some(forged) = crate::refcodec::retag_join_accept(&root, &acc, |m| tamper_mic_plain(m, (devaddr as u8) | 1)) {
+                h.rx_bytes(w, 0, &forged, None);
+            }
+        }
         h.rx_bytes(w, 5, &acc, None);
         h.devaddr = devaddr;
         h.last_down = None;
@@ -536,6 +594,48 @@ pub fn stale_mask_history(suite: &str, rng: &mut Rng, region: &str, variant: usi
             break;
         }
         h.send(1, false, &[0x40 + i]).timeout();
+    }
+    h.snap();
+    h.done()
+}
+
+/// Two LinkADRReq blocks in ONE downlink, separated by another command: the first widens the mask
+/// but is rejected (an undefined data rate), the second is partial and accepted. Before that the
+/// mask was restricted by an accepted block. Nothing of the rejected block may survive: the uplinks
+/// that follow must stay on the channels the network enabled.
+pub fn two_blocks_history(suite: &str, rng: &mut Rng, region: &str, k: usize) -> String {
+    let mut h = Hist::new(suite, region, 20, 0, 500 + k as u64, &[], None);
+    h.go_live();
+    h.abp();
+    let fixed = is_fixed(region);
+    let bad_dr: u8 = if region == "US915" { 5 } else if region == "AU915" { 7 } else { 12 };
+    h.send(1, false, &[1]);
+    if fixed {
+        // all 125 kHz channels off, 500 kHz channel 65 on; then channels 8..15 (or another bank) on
+        let bank = (k % 4) as u8;
+        let mut a = link_adr_req(if region == "US915" { 2 } else { 3 }, 15, 0x0002, 7, 1);
+        a.extend_from_slice(&link_adr_req(if region == "US915" { 2 } else { 3 }, 15, if k % 2 == 0 { 0xff00 } else { 0x00f0 }, bank, 1));
+        h.rx_auth("rx1", 0, 1, false, &a, None, &[]);
+    } else {
+        let n = crate::oracle::num_default_channels(region);
+        h.rx_auth("rx1", 0, 1, false, &link_adr_req(0, 15, if n == 3 { 0x0005 } else { 0x0001 }, 0, 1), None, &[]);
+    }
+    h.snap();
+    h.send(1, false, &[2]);
+    let mut b = link_adr_req(bad_dr, 15, if fixed { 0x00ff } else { 0x0007 }, 6, 1);
+    b.extend_from_slice(&dev_status_req());
+    if fixed {
+        b.extend_from_slice(&link_adr_req(15, 15, if k % 3 == 0 { 0x0002 } else { 0x0001 }, 4, 1));
+    } else {
+        b.extend_from_slice(&link_adr_req(15, 15, 0x0001, 0, 1));
+    }
+    h.rx_auth(if k % 2 == 0 { "rx1" } else { "rx2" }, 0, 1, false, &b, None, &[]);
+    h.snap();
+    for i in 0..(10 + rng.below(8) as u8) {
+        if h.dead {
+            break;
+        }
+        h.send(1, false, &[0x50 + i]).timeout();
     }
     h.snap();
     h.done()
